@@ -1,7 +1,7 @@
 #!/usr/bin/env python3
 """Runs seeded mutants against quick checks in scratch worktrees (never in /repo) and records who detects what.
 usage: tools/matrix.py <lane> <nlanes> [--all]   — lane k handles mutants i % nlanes == k.
-Default: each mutant against its own property's check plus related ones; --all: against all 20 checks."""
+Default: each mutant against its own property's check plus related ones; --all: against all 20 checks; --own: own property's check only."""
 import json
 import os
 import subprocess
@@ -10,6 +10,7 @@ import sys
 VERIF = "/verif"
 lane, nl = int(sys.argv[1]), int(sys.argv[2])
 ALL = "--all" in sys.argv
+OWN = "--own" in sys.argv
 RELATED = {
     "C01": ["C01", "C10", "C11", "C14"], "C02": ["C02", "C03", "C06"], "C03": ["C03", "C02", "C05", "C06"], "C04": ["C04", "C13", "C07"],
     "C05": ["C05", "C06"], "C06": ["C06", "C05", "C02", "C03"], "C07": ["C07", "C08"], "C08": ["C08", "C03", "C07"], "C09": ["C09", "C03"],
@@ -37,7 +38,7 @@ for i, m in enumerate(muts):
         print(m, "PATCH DOES NOT APPLY", flush=True)
         continue
     prop = meta["breaks_property"]
-    checks = ALLC if ALL else RELATED[prop]
+    checks = ALLC if ALL else ([prop] if OWN else RELATED[prop])
     res = dict(meta.get("check_results", {}))
     for c in checks:
         p = subprocess.run([os.path.join(VERIF, "check"), c, "--tier", "quick"], cwd=VERIF, env=env, stdout=subprocess.PIPE, stderr=subprocess.STDOUT, text=True)
